@@ -46,18 +46,18 @@ def run(chk):
     BM.CONFIG['symbolic_ops'] = True
     it.arith_feasibility = True
     try:
-        swap_kernel(chk, it)
-        deposit_kernel(chk, it)
-        withdraw_kernel(chk, it)
-        backing_kernel(chk, it)
+        chk.guard(swap_kernel, chk, it)
+        chk.guard(deposit_kernel, chk, it)
+        chk.guard(withdraw_kernel, chk, it)
+        chk.guard(backing_kernel, chk, it)
     finally:
         BM.CONFIG['symbolic_ops'] = False
         it.arith_feasibility = False
-    builtins_kernel(chk, it)
+    chk.guard(builtins_kernel, chk, it)
     # backing also needs that what a withdrawal burns are tokens that exist: the withdrawal selector only passes requests
     # whose (single) output is an unspent coin of the pool's liquidity-token denomination
     from props import c15
-    c15.selectors(chk, it, only=('withdrawal',))
+    chk.guard(c15.selectors, chk, it, only=('withdrawal',))
 
 
 def _ranges(p, lo=1):
